@@ -302,6 +302,10 @@ def documentedForms : List (Item × Bool) :=
     (⟨.zcskip, ⟨.struct, false, [], cf [Ty.u8, Ty.bool], []⟩, []⟩, true),
     -- `#[zero_copy] #[repr(u8)] enum { A, B }`
     (⟨.zc, ⟨.enum, false, [[.int .u8]], [], [[], []]⟩, []⟩, true),
+    -- `#[unsized_type] struct MyStruct { sized_field: u64, #[unsized_start] items: List<u8> }`
+    (⟨.unsized, ⟨.struct, false, [], cf [Ty.u64], []⟩, [⟨true⟩]⟩, true),
+    -- `MyAccount { sized_field: u64, another_sized_field: bool, #[unsized_start] bytes: List<u8>, map: Map<..> }`
+    (⟨.unsized, ⟨.struct, false, [], cf [Ty.u64, Ty.bool], []⟩, [⟨true⟩, ⟨true⟩]⟩, true),
     -- doctest "ZST at end": `{ field1: u8, #[unsized_start] remaining: RemainingBytes }`
     (⟨.unsized, ⟨.struct, false, [], cf [Ty.u8], []⟩, [⟨false⟩]⟩, true),
     -- doctest "ZST on sized" (compile_fail): `{ field1: (), #[unsized_start] list: List<u8> }`
